@@ -59,7 +59,7 @@ func init() {
 	prop("C18", []string{"R35", "R59", "R57", "R33", "R3", "R42"},
 		"matcher selection and anchoring for all 16 pattern classes, both column types agreeing (R35); the custom upper-casing never stores a non-ASCII rune as a single byte (R33); nulls never reach the matcher (R35 dominance; enum matching ranges over values).",
 		"agreement of the rest of the ToUpper copy with strings.ToUpper (buffer growth, length-changing code points); regular-expression assembly.")
-	prop("C19", []string{"R6", "R36", "R25", "R29", "R31", "R41", "R48", "R2c", "R1w", "R1r"},
+	prop("C19", []string{"R6", "R36", "R25", "R29", "R31", "R41", "R48", "R2c", "R1w", "R1r", "R71"},
 		"necessary conditions only: rows and arguments are taken through the index in frame order (R6); all five column types have an argument builder (R36); all dialect/config fields are consulted (R25); driver errors surface and a failing result set is not taken for a complete one (R29, R31, R41).",
 		"statement text per dialect; typed scanning and NULL back-fill; write/read agreement through a real store.")
 }
